@@ -17,6 +17,8 @@ Value(x) ==
       [] x.op = "view_rev2" -> [i \in 1..((Len(x.a) + 1) \div 2) |-> x.a[2 * i - 1]]        \* a(seq(0,N,2))
       [] x.op = "view_write" -> [i \in 1..Len(x.a) |-> IF i % 2 = 1 THEN x.s ELSE x.a[i]]    \* a(seq(0,N,2)) = s
       [] x.op = "matmul" -> MatMulOf(x.a, x.b, x.M, x.K, x.N)
+      \* operands are recorded with zeros outside their tagged triangles: the triangular product is the general product of them (C17)
+      [] x.op = "tmatmul" -> MatMulOf(x.a, x.b, x.M, x.K, x.N)
       [] x.op = "transpose" -> TransOf(x.a, x.M, x.N)
       [] x.op = "matvec" -> MatMulOf(x.a, x.b, x.M, x.K, 1)
 
